@@ -179,3 +179,27 @@ def r15_2(ctx, rr):
         rr.ob(ok, key=key, sample={"impl": "%s for %s" % (t, s)} if n % 40 == 1 else None)
         if not ok:
             rr.violate(key + ":storage-generic", "impl %s for %s is pinned to owned storage (a Vec/Box argument, or storage parameters left at their Box defaults): the zero-copy image of the structure (storage borrowed as slices) does not get this query" % (t, s), F.loc({"s": i["s"]}))
+
+
+@rule("R15.3", props=["C15"], floor=15, title="no serializable structure asks for more alignment than every loader provides (ε-serde's load_mem allocates 64-byte-aligned memory and refuses types aligned beyond that)")
+def r15_3(ctx, rr):
+    """A `#[repr(align(N))]` with N > 64 on a structure deriving Epserde leaves serialization, load_full and mmap
+    untouched, and makes `load_mem` fail with an alignment error for every instance: the loaded structure cannot answer
+    at all through that path."""
+    from guards import is_derived
+    F = ctx.F()
+    ser = sorted(set(b.impl_adt for b in F.fns() if b.impl_adt and "Epserde" in (b.mac + "<" + b.impl_mac).split("<") and b.file.startswith("src/")))
+    if len(ser) < 15:
+        raise AnchorMissing("expected at least 15 structures deriving Epserde, found %d" % len(ser))
+    for adt in ser:
+        a = F.adts.get(adt)
+        if a is None:
+            continue
+        rr.instances += 1
+        m = re.search(r"align: Some\(\s*Align\((\d+) bytes\)", a.get("repr", "")) or re.search(r"align: Some\((\d+)", a.get("repr", ""))
+        al = int(m.group(1)) if m else None
+        key = "%s:alignment-within-loader-limit" % adt.split("::")[-1]
+        ok = al is None or al <= 64
+        rr.ob(ok, key=key, sample={"type": adt, "repr align": al})
+        if not ok:
+            rr.violate(key, "%s derives Epserde and is declared `#[repr(align(%d))]`: load_mem (64-byte-aligned allocation) rejects every instance of it and of the structures that embed it, while the other loaders accept them -- the loaded structure does not answer like the original through that path" % (adt, al), a.get("s", ""))
